@@ -188,7 +188,7 @@ ADDED = {
  "C03": ("; reference cores and the VECTORISED ChaCha20 code (dolbeau u0/u1/u4/u8 over a transcribed SSE/AVX2 intrinsic semantics) proved equal to the reference model, hence to RFC 8439, for every key, nonce, 64-bit counter and length",
          " The reference block functions (chacha20_ref, crypto_core_salsa*, HSalsa20 / HChaCha20) and the AVX2 / SSSE3 vector code (counter lanes with carries, quarter rounds through shuffle_epi8, transpositions, tails, all four entry points) are modelled statement by statement and proved equal to the specification keystream; the intrinsic semantics they rest on are re-validated against this CPU on every run, the source files are pinned."),
  "C04": ("; reference compression functions, Poly1305 donna64 limb arithmetic and the SIMD BLAKE2b compression functions (AVX2 / SSSE3 / SSE4.1, 144 message-load macros regenerated from the headers on every run) proved equal to the specification",
-         " SHA-256/512 transform, blake2b_compress_ref, SipHash, poly1305_donna64 and the three vectorised BLAKE2b compression functions are modelled in the C's structure and proved equal to the specification for every input (Properties/C04Compress, C04Poly, C04Simd); the message-load macros are generated from the headers and the proofs re-checked when they change."),
+         " SHA-256/512 transform, blake2b_compress_ref, SipHash, poly1305_donna64 and the three vectorised BLAKE2b compression functions are modelled in the C's structure and proved equal to the specification for every input (Properties/C04Compress, C04Poly, C04Simd); the message-load macros are generated from the headers and the proofs re-checked when they change. poly1305_sse2.c — the Poly1305 this host selects (two parallel 26-bit-limb lanes, r^2 / r^4 multipliers, 32-byte buffering, shift-flag final block, lane combination) — is modelled in C statement order and proved equal to the specification MAC for every key, message, chunking and prior content of the partly initialised state (Properties/C04PolySse2, 32 theorems)."),
  "C06": ("; the ge25519 group-operation code (point formulas, window recoding, constant-time lookups, the three scalar multiplications, base tables regenerated from the source) modelled and proved over an explicit curve-group hypothesis",
          " The ge25519 code is inside the model: every addition / doubling formula is proved (as a polynomial identity) to compute the RFC 8032 formulas on the represented points, the signed-window and sliding-window recodings are proved as integer identities, the table lookups exact, the three scalar multiplications return n*P / n*B / a*A + b*B over any group the formulas implement, the 264 precomputed base-table entries are kernel-checked against the specification base point; that the RFC formulas form a group on the curve is an explicit hypothesis (a fact about edwards25519, not about libsodium)."),
  "C07": ("; sc25519 limb code re-transcribed from the source every run and proved exact; ge25519 group-operation code as for C06",
